@@ -324,8 +324,16 @@ def _final(inp):
         ircdb = _ircdb()
         apply_cfg(cfg_of(inp, 'save'))
         if inp.get('db') == 'users':
-            _state['final'] = users_case(ircdb, inp['ops'])[0]
+            _state['final'], ftext = users_case(ircdb, inp['ops'])
             _state['final_nextid'] = _state['nextid']
+            # what the oracle says about this very state on the code under test (the C16.k class needs it: only a
+            # failure that IS the nextId clause belongs to that finding, whatever else the history did)
+            apply_cfg(cfg_of(inp, 'load'))
+            try:
+                _state['final_detail'] = users_oracle(ircdb, _state['final'], ftext, _state['final_nextid'])[0] or ''
+            except Exception as e:
+                _state['final_detail'] = 'oracle raised %r' % (e,)
+            apply_cfg(cfg_of(inp, 'save'))
         elif inp.get('db') == 'channels':
             _state['final'] = chans_case(ircdb, inp['ops'])[0]
         elif inp.get('db') == 'ignores':
@@ -371,7 +379,8 @@ def nextid_lower(inp):
     if inp.get('db') != 'users':
         return False
     final = _final(inp)
-    return _state.get('final_nextid', 0) > max([u[0] for u in final] or [0])
+    return (_state.get('final_nextid', 0) > max([u[0] for u in final] or [0])
+            and _state.get('final_detail', '').startswith('nextId '))
 
 
 def hashed_nopw(inp):
